@@ -4,6 +4,7 @@ import (
 	"fmt"
 	"go/token"
 	"go/types"
+	"sort"
 	"strings"
 
 	"golang.org/x/tools/go/ssa"
@@ -299,5 +300,96 @@ func init() {
 				okSkip = notEmpty && (notHash || hashTest)
 			}
 			r.Check(okSkip, fname(fn), "comment and empty lines are skipped", fn.Pos(), "lines are recorded only when non-empty and not starting with '#'", "comment or empty lines can be recorded as data")
+		}})
+}
+
+func init() {
+	register(&Rule{ID: "C17.R6", Props: []string{"C17"}, Min: 1, Needs: NeedMain,
+		Doc: "no write into a nil map: for every struct field of map type that package conf assigns into (m[k] = v), every place that allocates that struct stores a freshly made map into the field on every path before it returns (or the write is dominated by a non-nil test) — arbitrary documents reach the write through any node kind, e.g. a key line followed by a same-named sub-domain",
+		Run: func(r *R) {
+			sp := r.w.Pkg("tars/util/conf")
+			if sp == nil {
+				r.AnchorMissing("package conf")
+				return
+			}
+			type key struct {
+				t string
+				f int
+			}
+			written := map[key]*ssa.MapUpdate{}
+			names := map[key]string{}
+			for _, fn := range r.w.Funcs(sp) {
+				eachInstr(fn, func(in ssa.Instruction) {
+					mu, ok := in.(*ssa.MapUpdate)
+					if !ok {
+						return
+					}
+					u, ok := mu.Map.(*ssa.UnOp)
+					if !ok || u.Op != token.MUL {
+						return
+					}
+					fa, ok := u.X.(*ssa.FieldAddr)
+					if !ok {
+						return
+					}
+					// guarded by a dominating non-nil test on the same load?
+					for _, f := range facts(in.Block()) {
+						if c, ok := normFact(f); ok && c.Op == token.NEQ && isNilConst(c.Y) && sameValue(c.X, u) {
+							return
+						}
+					}
+					k := key{typeID(fa.X.Type()), fa.Field}
+					if _, dup := written[k]; !dup {
+						written[k] = mu
+						if fv, _, ok := fieldAddrOf(fa); ok {
+							names[k] = k.t + "." + fv.Name()
+						}
+					}
+				})
+			}
+			var ks []key
+			for k := range written {
+				ks = append(ks, k)
+			}
+			sort.Slice(ks, func(i, j int) bool { return names[ks[i]] < names[ks[j]] })
+			for _, k := range ks {
+				sites := 0
+				for _, fn := range r.w.Funcs(sp) {
+					eachInstr(fn, func(in ssa.Instruction) {
+						al, ok := in.(*ssa.Alloc)
+						if !ok || typeID(al.Type()) != k.t {
+							return
+						}
+						sites++
+						var mk *ssa.Store
+						for _, ref := range *al.Referrers() {
+							fa, ok := ref.(*ssa.FieldAddr)
+							if !ok || fa.Field != k.f {
+								continue
+							}
+							for _, r2 := range *fa.Referrers() {
+								if st, ok := r2.(*ssa.Store); ok && st.Addr == ssa.Value(fa) {
+									if _, isMk := st.Val.(*ssa.MakeMap); isMk {
+										// must hold on every exit
+										all := true
+										eachInstr(fn, func(j ssa.Instruction) {
+											if ret, ok := j.(*ssa.Return); ok && !instrDominates(st, ret) {
+												all = false
+											}
+										})
+										if all {
+											mk = st
+										}
+									}
+								}
+							}
+						}
+						r.Check(mk != nil, fname(fn), "allocation of "+names[k]+" initialises the map", in.Pos(), "make(map) stored on every path", "this allocation can leave %s nil on some path, and %s writes into it without a nil test: the parser panics on a document that reaches the write through such a node", names[k], r.posStr(written[k].Pos()))
+					})
+				}
+				if sites == 0 {
+					r.Undecided("tars/util/conf", "allocation sites of "+names[k], written[k].Pos(), "no allocation of the struct found in the package")
+				}
+			}
 		}})
 }
